@@ -167,7 +167,7 @@ func genBatch(r *rand.Rand, mode string) (BatchCfg, *BatchScript) {
 	if mode == "bigstop" {
 		s.Items[1].Execs[0].Out = "err"
 	}
-	if (mode == "continue" || mode == "stop") && c.Shape == "results" && c.ExSty == "r" && !c.Fb && c.Items > 0 && r.Intn(3) == 0 {
+	if (mode == "continue" || mode == "stop") && c.Shape == "results" && c.ExSty == "r" && !c.Fb && c.Items > 0 && r.Intn(2) == 0 {
 		// some items are error Results already when prep returns them
 		for i := 1; i <= c.Items; i++ {
 			if r.Intn(4) == 0 {
